@@ -15,6 +15,8 @@ import (
 )
 
 //vp:all model github.com/google/uuid.New = vpmUUIDNew
+//vp:all stub time.NewTimer = vpNewTimer
+//vp:all stub time.After = vpAfter
 
 var vpUUIDCtr byte
 
@@ -36,9 +38,14 @@ type vpTransport struct {
 	drainFails  bool
 	corrupted   int
 	beforeEOF   func()
+	onAccept    func() // runs while the accept (HTTP response head) is being written to this connection
 	onDrain     func() // runs while the gateway waits for the connection's first bytes (Drain)
 	clientGone  bool // DATA writes to this connection block until it is closed (a client that stopped reading)
 	isWS        bool // handed out by the NewWS stub: one ReadPacket = one websocket message
+	pauseAt     int  // 1+index of the packet before which the client stays silent for a long time (0: never)
+	inflight    int  // WritePacket calls in progress
+	closedCh    chan struct{}
+	overlaps    int  // times a WritePacket call began while another was in progress (one writer at a time!)
 }
 
 func (t *vpTransport) ReadPacket() (int, []byte, error) {
@@ -46,6 +53,10 @@ func (t *vpTransport) ReadPacket() (int, []byte, error) {
 		vpRunTasks() // waiting for the client is where the tunnel's other goroutines get to run
 	}
 	t.nread++
+	if t.pauseAt == t.pos+1 {
+		t.pauseAt = 0
+		vpSleepLong() // longer than any timeout the gateway may have armed
+	}
 	if t.gen != nil {
 		if t.pos >= t.ngen {
 			return 0, []byte{0, 0}, io.EOF
@@ -69,23 +80,24 @@ func (t *vpTransport) ReadPacket() (int, []byte, error) {
 }
 
 func (t *vpTransport) WritePacket(b []byte) (int, error) {
+	vpMu.Lock()
+	t.inflight++
+	if t.inflight > 1 {
+		t.overlaps++
+	}
+	vpMu.Unlock()
+	defer func() {
+		vpMu.Lock()
+		t.inflight--
+		vpMu.Unlock()
+	}()
 	c := make([]byte, len(b))
 	copy(c, b)
 	if t.clientGone && len(b) >= 2 && b[0] == 0xA && b[1] == 0 {
 		// the client no longer drains this connection: a DATA write blocks until the connection is
 		// closed (by the gateway, or by the operating system once the peer is gone for good)
-		for i := 0; ; i++ {
-			vpMu.Lock()
-			cl := t.closed
-			vpMu.Unlock()
-			if cl {
-				return 0, errors.New("vp: write on a closed connection")
-			}
-			if !vpSymbolic() && i > 3000 {
-				vpBlockForever()
-			}
-			vpWaitProgress()
-		}
+		<-t.closedChan()
+		return 0, errors.New("vp: write on a closed connection")
 	}
 	if t.stallWrites {
 		// a slow client: the write is in flight while the tunnel's other goroutines run
@@ -99,11 +111,25 @@ func (t *vpTransport) WritePacket(b []byte) (int, error) {
 }
 
 func (t *vpTransport) Close() error {
+	ch := t.closedChan()
 	vpMu.Lock()
+	if !t.closed {
+		close(ch)
+	}
 	t.closed = true
 	t.ncloses++
 	vpMu.Unlock()
 	return nil
+}
+
+// closedChan is closed when the connection is.
+func (t *vpTransport) closedChan() chan struct{} {
+	vpMu.Lock()
+	defer vpMu.Unlock()
+	if t.closedCh == nil {
+		t.closedCh = make(chan struct{})
+	}
+	return t.closedCh
 }
 
 // vpConn implements net.Conn: scripted reads, recorded writes, close flag.
